@@ -1,4 +1,4 @@
-import AaVerif.Ref.Grammar
+import AaVerif.Ref.GrammarLemmas
 import AaVerif.Aa.Parse
 import AaVerif.Aa.Sort
 import AaVerif.Generated.AaTables
@@ -48,6 +48,27 @@ theorem C12_signal_read :
       readsBack (mk "signal" (false, []) [] [.l [S "send"], .l [s], .s (S "foo//bar")]) = true ∧
       readsBack (mk "signal" (true, S "deny") (S " c") [.l [S "send"], .l [s], .s []]) = true) := by
   constructor <;> decide +kernel
+
+/-- every capability name of the regenerated table is a simple word (no blank, quote, parenthesis, `#`) -/
+theorem capability_names_simple :
+    ∀ n ∈ reqValues T "capability" "name", SimpleW n ∧ '#' ∉ n := by decide +kernel
+
+/-- **Capability rules of any length** (symbolic, no enumeration): for every qualifier and EVERY list of
+capability names drawn from the table — any length, any order, repetitions included — the reference
+reader accepts the text the printer produces and reads the same capability set (in the canonical
+order of the table, duplicates removed, which is how the library itself normalises the list). -/
+theorem C12_capability_all_lists (audit deny : Bool) (names : List Text)
+    (h : ∀ n ∈ names, n ∈ reqValues T "capability" "name") :
+    Ref.read T (renderRule (capRule audit deny names) (padOf [])) =
+      some (mkR "capability" { audit := audit, deny := deny, owner := false }
+        [.l (mergeValues T "capability" "name" names [])]) :=
+  read_capability T audit deny names (fun n hn => capability_names_simple n (h n hn))
+    (fun n hn => by simpa using h n hn)
+
+example : Ref.read T (renderRule (capRule true true [S "kill", S "chown", S "kill"]) (padOf []))
+    = some (mkR "capability" { audit := true, deny := true, owner := false } [.l [S "chown", S "kill"]]) := by
+  rw [C12_capability_all_lists true true _ (by decide +kernel)]
+  decide +kernel
 
 theorem C12_ptrace_read :
     ∀ a ∈ reqValues T "ptrace" "access", ∀ q ∈ quals,
